@@ -1,15 +1,15 @@
 //! C07 — signature verification accepts exactly the Pointcheval-Sanders relation.
 use crate::prelude::*;
 
-pub fn run(tier: Tier, seed: u64) {
+pub fn run(_tier: Tier, seed: u64) {
     eng::functions(&[
         "zkchannels_crypto::pointcheval_sanders::Signature::{new, randomize, blind_and_randomize, verify, is_well_formed}",
         "zkchannels_crypto::pointcheval_sanders::BlindedSignature::{new, unblind, randomize}",
         "zkchannels_crypto::pointcheval_sanders::{KeyPair::new, PublicKey::try_from, VerifiedBlindedMessage::blind_sign}",
         "zkchannels_crypto::Message::{sign, blind}",
     ]);
-    eng::bound("N in {1,2,3,5} (+8,13 thorough); all verifier paths; derivation chains of length <= 3; re-randomiser draws: generic (non-zero) and exactly zero");
-    crate::for_each_n!(tier, unit, seed);
+    eng::bound("N in {1,2,3,5,8,13} in both tiers; all verifier paths; derivation chains of length <= 3; re-randomiser draws: generic (non-zero) and exactly zero");
+    crate::for_each_n_all!(unit, seed);
 }
 
 fn unit<const N: usize>(seed: u64) {
